@@ -36,8 +36,7 @@ theorem subset_spec {n o : Bytes} (hn : Valid n) (ho : Valid o) (hov : lo o < hi
   have hRo := rkey_rankList (root o)
   have en_cases : (if startsWithDot n then 2 else 1) = 1 ∨ (if startsWithDot n then 2 else 1) = 2 := by split <;> simp
   have eo_cases : (if startsWithDot o then 2 else 1) = 1 ∨ (if startsWithDot o then 2 else 1) = 2 := by split <;> simp
-  rw [lo_eq, hi_eq] at hov
-  rw [lo_eq n, lo_eq o, hi_eq n, hi_eq o]
+  simp only [lo_eq, hi_eq] at hov ⊢
   generalize hrn : rkey (root n) = Rn at *
   generalize hro : rkey (root o) = Ro at *
   unfold isSubset
@@ -59,7 +58,6 @@ theorem subset_spec {n o : Bytes} (hn : Valid n) (ho : Valid o) (hov : lo o < hi
         have hlen2 : o.length ≥ n.length := by omega
         simp only [hdn, hdo, Bool.and_self, if_true, hlen, hlen2, decide_false, decide_true, true_and]
         rw [hdo] at hb
-        simp only [hdn, if_true]
         exact ⟨List.lt_asymm hb.1, List.lt_asymm hb.2⟩
       | false =>
         rw [hdo] at hb
@@ -95,5 +93,90 @@ theorem subset_spec {n o : Bytes} (hn : Valid n) (ho : Valid o) (hov : lo o < hi
         simp only [hdn, hdo, Bool.false_and, Bool.false_eq_true, if_false, Bool.not_false, Bool.not_true, Bool.and_false,
           if_true, true_and]
         exact ⟨List.lt_asymm hb.1, List.lt_asymm hb.2⟩
+
+
+/-! ### interval membership is the textual relation -/
+
+/-- **The property's reading of one configured value.**  Hosts are taken without their leading dots (the documented contract
+of matchDomainName) and compared case-insensitively: a value that begins with a dot matches the domain after the dot and every
+name that ends with the value; any other value matches only itself.  The empty host matches nothing. -/
+def Matches (v h : Bytes) : Prop :=
+  fold (stripDots h) ≠ [] ∧
+  (if startsWithDot v then fold (stripDots h) = fold v.tail ∨ fold v <:+ fold (stripDots h)
+   else fold (stripDots h) = fold v)
+
+theorem map_rank_eq_iff : ∀ (a b : List UInt8), a.map rank = b.map rank ↔ a.map lower = b.map lower
+  | [], [] => by simp
+  | [], _ :: _ => by simp
+  | _ :: _, [] => by simp
+  | x :: a, y :: b => by simp [rank_eq_iff, map_rank_eq_iff a b]
+
+theorem rkey_eq_iff (a b : Bytes) : rkey a = rkey b ↔ fold a = fold b := by
+  unfold rkey fold
+  rw [List.map_reverse, List.map_reverse, List.reverse_inj]
+  exact map_rank_eq_iff a b
+
+theorem map_rank_split_iff (a b : List UInt8) :
+    (∃ t, a.map rank = t ++ 1 :: b.map rank) ↔ (∃ u, a.map lower = u ++ DOT :: b.map lower) := by
+  constructor
+  · rintro ⟨t, ht⟩
+    obtain ⟨l1, l2, rfl, h1, h2⟩ := List.map_eq_append_iff.mp ht
+    obtain ⟨c, l3, rfl, hc, h3⟩ := List.map_eq_cons_iff.mp h2
+    have hcd : c = DOT := (rank_eq_one_iff c).mp hc
+    refine ⟨l1.map lower, ?_⟩
+    rw [List.map_append, List.map_cons, hcd, lower_dot, (map_rank_eq_iff l3 b).mp h3]
+  · rintro ⟨u, hu⟩
+    obtain ⟨l1, l2, rfl, h1, h2⟩ := List.map_eq_append_iff.mp hu
+    obtain ⟨c, l3, rfl, hc, h3⟩ := List.map_eq_cons_iff.mp h2
+    have hcd : c = DOT := (lower_eq_dot_iff c).mp hc
+    refine ⟨l1.map rank, ?_⟩
+    rw [List.map_append, List.map_cons, hcd, rank_dot, (map_rank_eq_iff l3 b).mpr h3]
+
+theorem rkey_ext_iff (a b : Bytes) : (∃ t, rkey a = rkey b ++ 1 :: t) ↔ fold (DOT :: b) <:+ fold a := by
+  have key : (∃ t, rkey a = rkey b ++ 1 :: t) ↔ (∃ t, a.map rank = t ++ 1 :: b.map rank) := by
+    unfold rkey
+    constructor
+    · rintro ⟨t, ht⟩
+      refine ⟨t.reverse, ?_⟩
+      have := congrArg List.reverse ht
+      simpa using this
+    · rintro ⟨t, ht⟩
+      refine ⟨t.reverse, ?_⟩
+      rw [List.map_reverse, ht]; simp
+  rw [key, map_rank_split_iff]
+  unfold fold
+  simp only [List.map_cons, lower_dot]
+  constructor
+  · rintro ⟨u, hu⟩; exact ⟨u, hu.symm⟩
+  · rintro ⟨u, hu⟩; exact ⟨u, hu.symm⟩
+
+theorem in_iff_matches (v h : Bytes) (hv : v ≠ []) : In (hostKey h) v ↔ Matches v h := by
+  unfold In Matches hostKey
+  by_cases he : (stripDots h).isEmpty = true
+  · have h0 : stripDots h = [] := by simpa using he
+    have hl : lo v ≠ [] := endKey_ne_nil _ _ _
+    have : ([] : List Nat) < lo v := by cases hlv : lo v with
+      | nil => exact absurd hlv hl
+      | cons _ _ => simp
+    simp [h0, fold, this]
+  · have he' : (stripDots h).isEmpty = false := by simpa using he
+    have hne : fold (stripDots h) ≠ [] := by
+      unfold fold; intro hc
+      have : stripDots h = [] := by simpa using hc
+      simp [this] at he'
+    have ecs : (if startsWithDot v then 2 else 1) = 1 ∨ (if startsWithDot v then 2 else 1) = 2 := by split <;> simp
+    simp only [he', Bool.false_eq_true, if_false, lo_eq, hi_eq]
+    rw [mem_interval_iff _ ecs _ _ (rkey_rankList _) (rkey_rankList _)]
+    cases v with
+    | nil => exact absurd rfl hv
+    | cons c r =>
+      by_cases hc : startsWithDot (c :: r) = true
+      · have hcd : c = DOT := by simpa [startsWithDot] using hc
+        subst hcd
+        have hr : root (DOT :: r) = r := by simp [root, startsWithDot]
+        simp only [hc, if_true, hr, List.tail_cons, true_and, rkey_eq_iff, rkey_ext_iff, hne, ne_eq, not_false_eq_true]
+      · have hc' : startsWithDot (c :: r) = false := by simpa using hc
+        have hr : root (c :: r) = c :: r := by simp [root, hc']
+        simp [hc', hr, rkey_eq_iff, hne]
 
 end SquidModel.Acl.Domain
